@@ -193,7 +193,10 @@ def run_case(case, wdir, mods):
     def entry_obs(status, upd, exc):
         out = {'status': status, 'codes': None, 'dir': None, 'exc': exc}
         if isinstance(upd, dict) and 'return_codes' in upd:
-            out['codes'] = [int(c) for c in upd['return_codes']]
+            # a recorded code that is not an integer exit status is kept as an impossible value
+            # so that the oracle (return codes = codes of the commands run) reports it
+            out['codes'] = [int(c) if isinstance(c, int) and not isinstance(c, bool) else -999983
+                            for c in upd['return_codes']]
         if isinstance(upd, dict) and 'output_dir' in upd:
             out['dir'] = rel_components(upd['output_dir'], root)
             out['paths_in_dir'] = all(
